@@ -57,6 +57,9 @@ var normInline string // "", a package path, or "all"
 // normInlineStmts additionally inlines calls that are whole statements (not only tail calls).
 var normInlineStmts bool
 
+// normInlineClosures additionally inlines local closures that are only called (normalise_closure.go).
+var normInlineClosures string // "", a package path, or "all"
+
 // tryLoadNormalised loads the tree with the normalising overlay; if the rewritten source does not type-check (a case the
 // rewriting did not foresee) the original program is analysed instead.
 func tryLoadNormalised(repoDir string, overlay map[string][]byte, goarch string) (w *World) {
@@ -107,7 +110,7 @@ func loadWorld(repoDir string, overlay map[string][]byte, goarch string) *World 
 	if nerr > 0 {
 		infra("type-check/load errors (%d), first: %s", nerr, first)
 	}
-	if normRound < 5 {
+	if normRound < 9 {
 		// source normalisation (normalise*.go): glue tail-called halves of split functions together again, then split
 		// local struct variables used field by field; reload after each round that changed something
 		var own []*packages.Package
@@ -121,14 +124,20 @@ func loadWorld(repoDir string, overlay map[string][]byte, goarch string) *World 
 			saved[k] = v
 		}
 		var extra map[string][]byte
-		if normInline != "" {
+		pick := func(which string) []*packages.Package {
 			var sel []*packages.Package
 			for _, p := range own {
-				if normInline == "all" || p.PkgPath == normInline {
+				if which == "all" || p.PkgPath == which {
 					sel = append(sel, p)
 				}
 			}
-			extra = tailInlineOverlay(sel, overlay)
+			return sel
+		}
+		if normInline != "" {
+			extra = tailInlineOverlay(pick(normInline), overlay)
+		}
+		if extra == nil && normInlineClosures != "" {
+			extra = closureInlineOverlay(pick(normInlineClosures), overlay)
 		}
 		if extra == nil {
 			extra = sroaOverlay(own, overlay)
